@@ -164,12 +164,16 @@ impl CompressionCodecState {
 						.map_err(|deflate_error| error("Bzip2", &deflate_error))?;
 					let written = compress.total_in() as usize - before_in;
 					match status {
-						bzip2::Status::MemNeeded => {
-							// There may be more to write.
+						bzip2::Status::MemNeeded | bzip2::Status::FinishOk => {
+							// There is more to write (`FinishOk` is what bzip2 returns for
+							// `Action::Finish` as long as the stream is not finished, typically
+							// because the output buffer is full).
 							// That may be true even if the input is empty, because bzip2
 							// may have buffered some input.
 							input = &input[written..];
-							self.output_vec.resize(self.output_vec.len() * 2, 0);
+							if compress.total_out() as usize == self.output_vec.len() {
+								self.output_vec.resize(self.output_vec.len() * 2, 0);
+							}
 						}
 						bzip2::Status::FlushOk | bzip2::Status::RunOk | bzip2::Status::Ok => {
 							return Err(error(
@@ -177,7 +181,7 @@ impl CompressionCodecState {
 								&format_args!("got unexpected status from bzip2: {status:?}"),
 							));
 						}
-						bzip2::Status::FinishOk | bzip2::Status::StreamEnd => {
+						bzip2::Status::StreamEnd => {
 							assert_eq!(input.len(), written);
 							*len = compress.total_out() as usize;
 							break;
